@@ -44,7 +44,7 @@ def instantiate(it, st, lname, binding):
 GROUPS: dict = {}  # lemma name -> list of obligations names (base/step) to prove
 
 
-def induction(name, vars_, prop, on="j", hyps=(), uses_base=(), uses_step=(), lo=0):
+def induction(name, vars_, prop, on="j", hyps=(), uses_base=(), uses_step=(), lo=0, hints_step=()):
     """prove  forall vars, on >= lo . hyps => prop   by induction on `on`"""
     PROPS[name] = (dict(vars_, **{on: "Int"}), prop, on)
 
@@ -68,6 +68,8 @@ def induction(name, vars_, prop, on="j", hyps=(), uses_base=(), uses_step=(), lo
         it.assume(st, it.ev_contract_expr(prop, st))  # induction hypothesis
         st.env[on] = SV(TInt, j.t + 1)
         _use(it, st, uses_step, st.env)
+        for h in hints_step:  # ground instances of ASSUMED axioms, spelled out because they are not triggered syntactically
+            it.assume(st, it.ev_contract_expr(h, st))
         return it.ev_contract_expr(prop, st)
 
     LEMMAS[name + ".base"] = base
@@ -175,3 +177,21 @@ C06L += direct("L4.rush_larsen_formula", {"x": "Atom", "dt": "Sym", "delta": "Re
 
 C08L = direct("C08.same_definition_is_transitive", {"d": "Atom", "a": "Atom", "b": "Atom"},
               "implies(same_def(d, a) and same_def(d, b), same_def(a, b))")
+
+# L2 (definitions only): after executing the definitions of SA[0..j) in order, symbol(SA[i]) holds the value of expr(SA[i])
+from . import c_l2  # noqa: E402,F401
+
+STAB += prefix_stability("exec_seq", {"PS": "Seq[Stmt]", "env0": "Env", "j": "Int"}, "PS", "Stmt")
+L2 = []
+L2 += induction("L2.defs_len", {"SA": "Seq[Atom]"}, "len(defs_emit(SA, j)) == ite(j >= 0, j, 0)")
+_PS = "defs_emit(SA, j)"
+_PREV = f"exec_seq({_PS}, env0, j - 1)"
+_LHS, _RHS = "SA[j - 1].symbol", "SA[j - 1].expr"
+L2 += induction(
+    "L2.straight_line_evaluation", {"SA": "Seq[Atom]", "env0": "Env", "i": "Int"},
+    "implies(0 <= i and i < j and topo_i(SA, i, j) and dist_i(SA, i, j), "
+    "den(SA[i].symbol, exec_seq(defs_emit(SA, j), env0, j)) == den(SA[i].expr, exec_seq(defs_emit(SA, j), env0, j)))",
+    uses_step=[("L2.defs_len", {"j": "j - 1"}), ("L2.defs_len", {"j": "j"}),
+               ("stab.exec_seq", {"PS": "defs_emit(SA, j - 1)", "T": "[Assign(SA[j - 1].symbol, SA[j - 1].expr, True)]", "env0": "env0", "j": "j - 1"})],
+    hints_step=[f"env_frame(SA[i].symbol, {_PREV}, {_LHS}, den({_RHS}, {_PREV}))", f"env_frame(SA[i].expr, {_PREV}, {_LHS}, den({_RHS}, {_PREV}))"],
+)
